@@ -182,7 +182,7 @@ PROPS = {
                lambda c: sched.sched_pair(c, (sched.FF,)),
                lambda c: sched.sched_handover(c, (sched.FF,)),
                lambda c: sched.sched_progress(c, (sched.FF,)),
-               idxdom.idx_domain, sensor.sm_gate, layout.sd_transform,
+               idxdom.idx_domain, sensor.sm_gate, layout.sd_transform, layout.ff_comp,
                lambda c: interp.interp_rules(c, ('feedforward',))],
         decided=['every measurement sample is fused exactly once (epoch list de-duplicated, cursor pairing, no epoch overtaken: the C10 rules on the feedforward loop)',
                  'the epoch state is the interpolation between the bracketing rows with the elapsed fraction; propagation matrices at the mid-point state',
